@@ -31,6 +31,3 @@ Examples_C17.vos Examples_C17.vok Examples_C17.required_vos: Examples_C17.v /ver
 Props_C17.vo Props_C17.glob Props_C17.v.beautified Props_C17.required_vo: Props_C17.v /verif/coq/Base.vo /verif/coq/Layout.vo /verif/coq/Valid.vo /verif/coq/Types.vo /verif/coq/Carry.vo Json.vo Forms.vo TypeStr.vo Typing.vo Proofs_Depth.vo Proofs_Types.vo Proofs_Typing.vo Proofs_Json.vo Proofs_Parse.vo
 Props_C17.vio: Props_C17.v /verif/coq/Base.vio /verif/coq/Layout.vio /verif/coq/Valid.vio /verif/coq/Types.vio /verif/coq/Carry.vio Json.vio Forms.vio TypeStr.vio Typing.vio Proofs_Depth.vio Proofs_Types.vio Proofs_Typing.vio Proofs_Json.vio Proofs_Parse.vio
 Props_C17.vos Props_C17.vok Props_C17.required_vos: Props_C17.v /verif/coq/Base.vos /verif/coq/Layout.vos /verif/coq/Valid.vos /verif/coq/Types.vos /verif/coq/Carry.vos Json.vos Forms.vos TypeStr.vos Typing.vos Proofs_Depth.vos Proofs_Types.vos Proofs_Typing.vos Proofs_Json.vos Proofs_Parse.vos
-Extract_C17.vo Extract_C17.glob Extract_C17.v.beautified Extract_C17.required_vo: Extract_C17.v /verif/coq/Layout.vo /verif/coq/Valid.vo /verif/coq/Types.vo /verif/coq/Carry.vo Json.vo Forms.vo TypeStr.vo Typing.vo
-Extract_C17.vio: Extract_C17.v /verif/coq/Layout.vio /verif/coq/Valid.vio /verif/coq/Types.vio /verif/coq/Carry.vio Json.vio Forms.vio TypeStr.vio Typing.vio
-Extract_C17.vos Extract_C17.vok Extract_C17.required_vos: Extract_C17.v /verif/coq/Layout.vos /verif/coq/Valid.vos /verif/coq/Types.vos /verif/coq/Carry.vos Json.vos Forms.vos TypeStr.vos Typing.vos
